@@ -61,6 +61,7 @@ def make_long_case(rng, gen, slot):
                  'index': rng.choice([list(range(len(cand))), [3] * len(cand)])}
     # key columns of the candidate set in a dtype other than the tables' int64 key columns
     case['ckdtype'] = ['int64', 'int32', 'Int64', 'object'][(len(cand) + gen['jobs']) % 4]
+    case['eq_njobs'] = 1
     if kind == 'matcher':
         case.update(sc=1, tokmode=1, lout=['a'], rout=None, lpre='l_', rpre='r_', simfn='plain')
     else:
@@ -93,7 +94,7 @@ def make_case(rng, gen, slot):
             cells = {'id': k, 'm': vals[k], 'a': base + j}
             rows.append([cells[c] for c in order])
         return {'cols': order, 'rows': rows, 'index': rng.choice([None, [9, 9], ['p', 'q'], [1, 0]]),
-                'strcols': ['m'], 'sdtype': rng.choice(['object', 'object', 'str'])}
+                'strcols': ['m'], 'sdtype': rng.choice(['object', 'object', 'str', 'string'])}
     lkeys, rkeys = [1, 2], [3, 4]
     if rng.random() < 0.5:
         lkeys, rkeys = [2, 1], [4, 3]
@@ -188,9 +189,8 @@ def run_case(item):
     raised, result = '', None
     if vh:
         vh.drain()
-    try:
-        ctx = joblib.parallel_config(backend='threading')
-        with ctx:
+    def invoke(nj):
+        with joblib.parallel_config(backend='threading'):
             if case['kind'] == 'matcher':
                 if case['simkind'] == 'table':
                     lv = {r['id']: r['m'] for r in ltable.to_dict('records')}
@@ -204,12 +204,12 @@ def run_case(item):
                     simfn = sm.Jaccard().get_raw_score
                 else:
                     simfn = plain_jaccard
-                result = ssj.apply_matcher(cand, 'l_id', 'r_id', ltable, rtable, 'id', 'id', 'm', rattr,
+                return ssj.apply_matcher(cand, 'l_id', 'r_id', ltable, rtable, 'id', 'id', 'm', rattr,
                                            tok if case.get('tokmode', 1) else None, simfn, thr, case['op'],
                                            allow_missing=bool(case['am']), l_out_attrs=case.get('lout'),
                                            r_out_attrs=case.get('rout'), l_out_prefix=rec['lpre'],
                                            r_out_prefix=rec['rpre'], out_sim_score=bool(case.get('sc', 1)),
-                                           n_jobs=case['n_jobs'], show_progress=False)
+                                           n_jobs=nj, show_progress=False)
             else:
                 if case['filt'] == 'OVERLAP':
                     flt = ssj.OverlapFilter(tok, case['t'][0], case['op'], allow_missing=bool(case['am']))
@@ -221,8 +221,10 @@ def run_case(item):
                 lv = {r['id']: r['m'] for r in ltable.to_dict('records')}
                 rv = {r['id']: r['m'] for r in rtable.to_dict('records')}
                 rec['fp'] = [int(bool(flt.filter_pair(lv[c[1]], rv[c[2]]))) for c in case['C']['rows']]
-                result = flt.filter_candset(cand, 'l_id', 'r_id', ltable, rtable, 'id', 'id', 'm', 'm',
-                                            n_jobs=case['n_jobs'], show_progress=False)
+                return flt.filter_candset(cand, 'l_id', 'r_id', ltable, rtable, 'id', 'id', 'm', 'm',
+                                            n_jobs=nj, show_progress=False)
+    try:
+        result = invoke(case['n_jobs'])
     except Exception as exc:
         raised = type(exc).__name__
         case['_exc'] = '%s: %s' % (raised, str(exc)[:300])
@@ -234,14 +236,9 @@ def run_case(item):
     if raised == '' and ends and (case['kind'] != 'matcher' or len(starts) == 1):
         rec['hook'] = {'have': 1, 'cache': int(bool(starts[0]['cache'])) if starts else 0,
                        'nin': sum(int(e['n_in']) for e in ends)}
-    obs = {'raised': raised, 'fb': fb, 'fa': int(bool(tok.get_return_set())), 'cols': [], 'rows': [],
-           'lsame': record.same_as_snapshot(ltable, snaps[0]), 'rsame': record.same_as_snapshot(rtable, snaps[1]),
-           'csame': record.same_as_snapshot(cand, snaps[2])}
-    if raised == '' and not isinstance(result, pd.DataFrame):
-        obs['raised'] = 'NotADataFrame'
-    elif raised == '':
+    def abstract_rows(result):
+        rows = []
         cols = [str(c) for c in result.columns]
-        obs['cols'] = cols
         cix = {c: j for j, c in enumerate(cols)}
         data = result.to_dict('split')
         nl, nr = len(record.dedup(case.get('lout'), 'id')), len(record.dedup(case.get('rout'), 'id'))
@@ -263,7 +260,24 @@ def run_case(item):
                      's': [0, 0, 0], 'la': [], 'ra': [],
                      'x': book.code(row[cix['extra']], add=False) if 'extra' in cix else -1,
                      'ix': book.code(ix, add=False)}
-            obs['rows'].append(r)
+            rows.append(r)
+        return cols, rows
+
+    obs = {'raised': raised, 'fb': fb, 'fa': int(bool(tok.get_return_set())), 'cols': [], 'rows': [],
+           'lsame': record.same_as_snapshot(ltable, snaps[0]), 'rsame': record.same_as_snapshot(rtable, snaps[1]),
+           'csame': record.same_as_snapshot(cand, snaps[2])}
+    if raised == '' and not isinstance(result, pd.DataFrame):
+        obs['raised'] = 'NotADataFrame'
+    elif raised == '':
+        obs['cols'], obs['rows'] = abstract_rows(result)
+        if case.get('eq_njobs') and case['n_jobs'] != 1:
+            # the same call with one job on the same objects: compared by TLC with the EQ law (C10)
+            try:
+                r1 = invoke(1)
+                flat = lambda rows: [[r['id'], r['l'], r['r']] + r['s'] + [r['x'], r['ix']] + r['la'] + r['ra'] for r in rows]
+                rec['eq'] = {'A': flat(abstract_rows(r1)[1]), 'B': flat(obs['rows'])}
+            except Exception as exc:
+                rec['eq'] = {'A': [[-1, 0, 0]], 'B': []}       # the one-job run raised although the k-job run did not
     if obs['fa'] != fb:
         tok.set_return_set(bool(fb))
     rec['obs'] = obs
@@ -293,9 +307,20 @@ def run(tier, seed):
     items = [(j + 1, c) for j, c in enumerate(cases)]
     runner.log('E5: %d matcher / candset cases from %d TLC-enumerated candidate sets' % (len(items), len(gens)))
     recs = runner.pmap(run_case, items)
+    laws = []
+    for r in recs:
+        eq = r.pop('eq', None)
+        if eq is not None:
+            laws.append({'tid': r['tid'], 'law': 'EQ', 'prop': 'C10', 'A': eq['A'], 'B': eq['B'], 't': [1, 1],
+                         'meas': 'JACCARD', 'op': '>='})
     verdicts, stats = runner.validate(recs, 'TraceMatcher', 'e5')
+    lverd, lst = runner.validate(laws, 'TraceLaws', 'e5l', batch=400)
     by_tid = dict(items)
     fails, drift = [], []
+    for tid, v in lverd.items():
+        for f in v['fails']:
+            fails.append({'prop': f[0], 'clause': f[1] + ':n_jobs', 'detail': f[2:] + ['n_jobs=%d vs 1' % by_tid[tid]['n_jobs']],
+                          'case': by_tid[tid], 'engine': 'E5'})
     for tid, v in verdicts.items():
         for f in v['fails']:
             if f[0] == 'DRIFT':
@@ -305,10 +330,12 @@ def run(tier, seed):
     rng = random.Random(seed)
     samples = [{k: c.get(k) for k in ('kind', 'op', 't', 'am', 'simkind', 'filt', 'meas', 'n_jobs', 'C', '_src')}
                for _, c in rng.sample(items, 3)]
-    return {'engine': 'E5', 'cases': len(items), 'traces': len(recs), 'states': res.distinct + stats['states'],
-            'transitions': stats['transitions'], 'fails': fails, 'drift': drift[:50], 'samples': samples, 'exhaustive': True,
+    return {'engine': 'E5', 'cases': len(items), 'traces': len(recs) + len(laws),
+            'states': res.distinct + stats['states'] + lst['states'],
+            'transitions': stats['transitions'] + lst['transitions'], 'fails': fails, 'drift': drift[:50], 'samples': samples, 'exhaustive': True,
             'spec_runs': ['GenCandsets: %d initial states' % res.distinct,
-                          'TraceMatcher: %d traces in %d TLC runs' % (len(recs), stats['tlc_runs'])],
+                          'TraceMatcher: %d traces in %d TLC runs' % (len(recs), stats['tlc_runs']),
+                          'TraceLaws EQ (n_jobs = k vs 1): %d' % len(laws)],
             'rule': 'every sequence of distinct key pairs over 2x2 keys up to the length bound x every set of '
                     'missing rows (TLC, spec/GenCandsets.tla), each under seeded configurations (6 operators, score '
                     'classes t-d/t/t+d, tokenizer or none, bound-method or plain similarity, five filters, n_jobs 1-4); '
@@ -319,5 +346,11 @@ def run(tier, seed):
 
 def replay(case):
     rec = run_case((1, case))
+    eq = rec.pop('eq', None)
     verdicts, _ = runner.validate([rec], 'TraceMatcher', 'replay-e5')
-    return [{'prop': f[0], 'clause': f[1], 'detail': f[2:]} for f in verdicts[1]['fails']], rec
+    fails = [{'prop': f[0], 'clause': f[1], 'detail': f[2:]} for f in verdicts[1]['fails']]
+    if eq is not None:
+        law = {'tid': 1, 'law': 'EQ', 'prop': 'C10', 'A': eq['A'], 'B': eq['B'], 't': [1, 1], 'meas': 'JACCARD', 'op': '>='}
+        v, _ = runner.validate([law], 'TraceLaws', 'replay-e5l')
+        fails += [{'prop': f[0], 'clause': f[1] + ':n_jobs', 'detail': f[2:]} for f in v[1]['fails']]
+    return fails, rec
